@@ -3,7 +3,7 @@
  regenerate Gen tables from /repo -> re-check the Lean proofs + axiom audit ->
  correspondence (real code vs compiled Lean model on the same op lines) ->
  property oracle on the real code -> decision, replay files, evidence."""
-import argparse, concurrent.futures, fnmatch, json, os, re, shutil, subprocess, sys, time
+import argparse, concurrent.futures, contextlib, fcntl, fnmatch, json, os, re, shutil, subprocess, sys, time
 
 ROOT = os.path.dirname(os.path.dirname(os.path.abspath(__file__)))
 LEAN = os.path.join(ROOT, "lean")
@@ -18,6 +18,19 @@ from props import PROPS  # noqa: E402
 
 GOENV = dict(os.environ, GOFLAGS="-mod=mod", GOPROXY="off", GOSUMDB="off", GOTOOLCHAIN="local",
              CGO_ENABLED="0")
+
+
+@contextlib.contextmanager
+def build_lock():
+    """serialises the steps that write shared build outputs (Gen tables, lake, go build) so
+    that several checks may run at the same time"""
+    os.makedirs(WORK, exist_ok=True)
+    with open(os.path.join(WORK, "build.lock"), "w") as f:
+        fcntl.flock(f, fcntl.LOCK_EX)
+        try:
+            yield
+        finally:
+            fcntl.flock(f, fcntl.LOCK_UN)
 
 
 def run(cmd, cwd=None, env=None, timeout=None, stdin=None, stdout=subprocess.PIPE):
@@ -234,6 +247,8 @@ def main():
     broken = []      # broken proof obligations / correspondence (strings)
     notes = []
 
+    lock = build_lock()
+    lock.__enter__()
     # 1. translator
     ok, out = extract()
     if not ok:
@@ -280,6 +295,7 @@ def main():
 
     # 3./4. correspondence + oracle
     ok, out = go_build("./cmd/" + cfg["harness"], os.path.join(HARN, "bin", cfg["harness"]))
+    lock.__exit__(None, None, None)
     runs = []
     if not ok:
         broken.append("harness does not build against the current tree: " + trunc(out, 800))
